@@ -167,3 +167,47 @@ Definition doc_conn_early : doc := D [
 End C18Docs2.
 Export C18Docs2.
 
+
+Lemma roundtrip_refuted : ~ C18_roundtrip_statement.
+Proof.
+  intro H. pose proof (H doc_default_names) as H1.
+  remember (elab doc_default_names) as r eqn:Er. vm_compute in Er. subst r.
+  destruct (H1 _ eq_refl) as [n' [H2 _]]. vm_compute in H2. discriminate.
+Qed.
+
+Lemma sound_refuted_comment_in_info :
+  exists d n, supported d = false /\ elab d = Ok n /\ ~ denote d n.
+Proof.
+  exists doc_comment_in_info.
+  remember (elab doc_comment_in_info) as r eqn:Er. vm_compute in Er. subst r.
+  eexists. split; [vm_compute; reflexivity|]. split; [reflexivity|].
+  intros [ss [Hg [HF _]]].
+  vm_compute in Hg. inversion Hg; subst ss. clear Hg.
+  vm_compute in HF. inversion HF as [|sec rest [Hsec _] _]; subst. destruct Hsec as [_ Hi _ _ _].
+  specialize (Hi _ eq_refl). vm_compute in Hi. discriminate.
+Qed.
+
+Lemma same_wire_b_complete m a b :
+  same_wire m a b ->
+  existsb (fun c => existsb (fun w => wire_has a w && wire_has b w) (c_wires c)) (m_cables m) = true.
+Proof.
+  intros [c [w [Hc [Hw [Ha Hb]]]]]. apply existsb_exists. exists c. split; [assumption|].
+  apply existsb_exists. exists w. split; [assumption|]. apply andb_true_iff. split; apply existsb_pinref; assumption.
+Qed.
+
+Lemma sound_refuted_header_gap :
+  exists d n, supported d = false /\ elab d = Ok n /\ ~ denote d n.
+Proof.
+  exists doc_header_gap.
+  remember (elab doc_header_gap) as r eqn:Er. vm_compute in Er. subst r.
+  eexists. split; [vm_compute; reflexivity|]. split; [reflexivity|].
+  intros [ss [Hg [HF _]]].
+  vm_compute in Hg. inversion Hg; subst ss. clear Hg.
+  cbn [sections_of split_sections b_models] in HF.
+  inversion HF as [|sec rest [Hsec _] _]; subst. destruct Hsec as [_ _ _ Hn _].
+  specialize (Hn eq_refl _ eq_refl (PTop [97%N] 0) (PInst 0 [73%N] 0)).
+  destruct Hn as [_ Hn].
+  match type of Hn with ?P -> _ => assert (HP : P) end.
+  { exists ([97%N], 0), ([97%N], 0). vm_compute. split; [left; reflexivity|]. split; [right; right; left; reflexivity|]. left. reflexivity. }
+  apply Hn in HP. apply same_wire_b_complete in HP. vm_compute in HP. discriminate.
+Qed.
